@@ -249,7 +249,12 @@ package argmapper
 //@   ensures  [error-means-nil] imp(result1 != nil, result0 == nil)
 //@   ensures  [frame] vsKept()
 //@   assigns  ValueSet, Value, valueInternal, []*Value, map[string]*Value, map[reflect.Type]*Value, map[string]string, []string, []interface{}, reflect.StructField, vpos
-//@   after "name = strings.ToLower(name)" assert [tag-options] (len(options) >= 0) && has(options, "typeOnly") == specTypeOnly(typ, i) && options["subtype"] == specSub(typ, i)
+//@   after "name = strings.ToLower(name)" assert [tag-A] imp(ftag(typ, i) == "", !has(options, "typeOnly") && options["subtype"] == "")
+//@   after "name = strings.ToLower(name)" assert [tag-B] imp(ftag(typ, i) != "" && lastOpt(ftag(typ, i), "typeOnly") >= 1, has(options, "typeOnly"))
+//@   after "name = strings.ToLower(name)" assert [tag-C] imp(ftag(typ, i) != "" && has(options, "typeOnly"), lastOpt(ftag(typ, i), "typeOnly") >= 1)
+//@   after "name = strings.ToLower(name)" assert [tag-D] imp(ftag(typ, i) != "" && lastOpt(ftag(typ, i), "subtype") >= 1, options["subtype"] == optVal(splitAt(ftag(typ, i), ",", lastOpt(ftag(typ, i), "subtype"))))
+//@   after "name = strings.ToLower(name)" assert [tag-E] imp(ftag(typ, i) != "" && lastOpt(ftag(typ, i), "subtype") < 1, options["subtype"] == "")
+//@   after "name = strings.ToLower(name)" assert [tag-options] has(options, "typeOnly") == specTypeOnly(typ, i) && options["subtype"] == specSub(typ, i)
 //@   after "name = strings.ToLower(name)" assert [tag-name] name == lower(ite(ftag(typ, i) != "" && splitAt(ftag(typ, i), ",", 0) != "", splitAt(ftag(typ, i), ",", 0), fieldName(typ, i)))
 //@   after "result.values = append(result.values, &value)" set vpos = update(vpos, i, len(result.values)-1)
 //@   loop 1 invariant typ != nil && baseType(typ) == baseType(old(typ)) && 0 <= ptrCount && ptrCount <= 255 && ptrDepth(old(typ)) == ptrDepth(typ) + ptrCount
